@@ -233,7 +233,8 @@ pub fn compare(t: &GenTree, only: Option<&BTreeSet<String>>, stats: &mut SizeSta
                 },
                 k => frame_cap(k, ns),
             });
-            if ir_max < need_max && !info.approximate {
+            // a capped enumeration still yields lengths that real assignments reach: a bound below them is wrong either way
+            if ir_max < need_max {
                 let kind = if wrath_endless { "wrath-endless-array-cap" } else { "maximum-below-true-maximum" };
                 fails.push(Failure { sig: format!("c09:{}:{}", label, kind), object: o.name().to_string(), what: format!("IR maximum_size {} but an encoding of {} bytes exists (assignment {:?})", ir_max, if tmax == UNBOUNDED { format!("{} (frame limit)", need_max) } else { tmax.to_string() }, info.max_assign), detail: detail.clone() });
             }
@@ -268,7 +269,7 @@ pub fn compare(t: &GenTree, only: Option<&BTreeSet<String>>, stats: &mut SizeSta
                         if tmin <= cap && !g.accepts(tmin) && info.interval.min_achievable {
                             fails.push(Failure { sig: format!("c09:{}:guard-rejects-minimum", label), object: o.name().to_string(), what: format!("{} has guard {:?} which rejects the valid body length {}", at, g, tmin), detail: d.clone() });
                         }
-                        if hi >= tmin && !g.accepts(hi) && !info.approximate && !wrath_endless {
+                        if hi >= tmin && !g.accepts(hi) && !wrath_endless {
                             fails.push(Failure { sig: format!("c09:{}:guard-rejects-maximum", label), object: o.name().to_string(), what: format!("{} has guard {:?} which rejects the valid body length {}", at, g, hi), detail: d.clone() });
                         }
                         // the compiled guard is the published interval
